@@ -382,6 +382,13 @@ fn gen_module(id: usize, sh: &Shape) -> String {
         let src = if anim.contains(&i) { "v" } else { "sentinel" };
         s += &format!("        r.checks += 1; if t.f{i} != {src}.f{i} {{ r.bad(id, format!(\"keyframe_from/update: f{i} = {{:?}}, expected {{:?}} ({})\", t.f{i}, {src}.f{i})); }}\n", if anim.contains(&i) { "animated: copied value" } else { "not animated: untouched" });
     }
+    // (2b) a setter called after keyframe_from, or twice, overrides the earlier value
+    {
+        let f = anim[0];
+        let fty = ty(f);
+        s += &format!("        let tl = {w}::timeline().keyframe({w}::keyframe_from(&v, 1.0).f{f}(55 as {fty})).build();\n        let mut t = sentinel.clone();\n        tl.update(&mut t, 1.0);\n        r.checks += 1; if t.f{f} != 55 as {fty} {{ r.bad(id, format!(\"keyframe_from then setter: f{f} = {{:?}}, expected 55\", t.f{f})); }}\n");
+        s += &format!("        let tl = {w}::timeline().keyframe({w}::keyframe(1.0).f{f}(1 as {fty}).f{f}(56 as {fty})).build();\n        let mut t = sentinel.clone();\n        tl.update(&mut t, 1.0);\n        r.checks += 1; if t.f{f} != 56 as {fty} {{ r.bad(id, format!(\"keyframe_from: setter called twice: f{f} = {{:?}}, expected 56\", t.f{f})); }}\n");
+    }
     // (3) per-field interpolation against the linear reference; (4) metadata
     s += &format!("        let tl = {w}::timeline().duration_seconds(2.0).delay_seconds(0.5).repeat(Repeat::Times(1))\n");
     let mut frames: Vec<Vec<(f64, f64)>> = vec![vec![]; n];
@@ -609,7 +616,7 @@ pub fn run(run: Run) -> ! {
     cov.insert("programs_compiled".into(), json!(compiled));
     cov.insert("evaluations".into(), json!(shapes_a + checks));
     cov.insert("distinct_nontrivial".into(), json!(shapes_a));
-    cov.insert("rule".into(), json!(format!("Layer A (in-process expansion of the real derive source, parsed as a syn::File): ALL struct shapes with {} fields over types {{f32,f64,u8,i16,i32,u32}} x every #[animate] subset x struct visibility {{private,pub,pub(crate)}} (field visibilities rotated) x {{local, #[animate(remote = ...)] proxy (bare identifier or module-qualified path)}}, with doc comments / #[allow] / #[cfg] attributes before or after the #[animate] marker and on the struct (rotated over all shapes, and exhaustively for 1..2 fields), plus 48 WIDE structs (8, 12, 20, 33 fields x markers none/all/even/first/last/one-in-the-middle x local/remote; three of them compiled in quick, all in thorough); oracle: animated field set = attributed fields, or all if none is attributed; the keyframe builder has exactly one public setter per animated field with the field's type, keyframe data and t_<field> sub-timelines likewise, keyframe_from / values_from / update / start_with touch exactly the animated fields and are wired name-to-name, Target is the (remote) type, visibility copied, accessors forwarded to the time scale. Layer B: {} shapes compiled with the real derive: setter presence observed at run time (inherent-vs-trait method resolution), keyframe_from copies exactly the animated fields, un-animated fields keep sentinels, every animated field interpolates per a linear reference on a 41-point time grid (in every other shape each (position, field) is its own keyframe, so keyframes share positions) (delay, two cycles, after the end), metadata accessors return the configured values, and a stepped animation of the first animated field (40 holds = 80 keyframes with tied positions, end-of-hold keyframes added before start-of-hold ones) shows each hold's value inside the hold ({} run-time checks)", if thorough { "1..5 (6 types) and 6 (3 types)" } else { "1..4" }, compiled, checks)));
+    cov.insert("rule".into(), json!(format!("Layer A (in-process expansion of the real derive source, parsed as a syn::File): ALL struct shapes with {} fields over types {{f32,f64,u8,i16,i32,u32}} x every #[animate] subset x struct visibility {{private,pub,pub(crate)}} (field visibilities rotated) x {{local, #[animate(remote = ...)] proxy (bare identifier or module-qualified path)}}, with doc comments / #[allow] / #[cfg] attributes before or after the #[animate] marker and on the struct (rotated over all shapes, and exhaustively for 1..2 fields), plus 48 WIDE structs (8, 12, 20, 33 fields x markers none/all/even/first/last/one-in-the-middle x local/remote; three of them compiled in quick, all in thorough); oracle: animated field set = attributed fields, or all if none is attributed; the keyframe builder has exactly one public setter per animated field with the field's type, keyframe data and t_<field> sub-timelines likewise, keyframe_from / values_from / update / start_with touch exactly the animated fields and are wired name-to-name, Target is the (remote) type, visibility copied, accessors forwarded to the time scale. Layer B: {} shapes compiled with the real derive: setter presence observed at run time (inherent-vs-trait method resolution), keyframe_from copies exactly the animated fields (and a later setter, or a second call of the same setter, overrides), un-animated fields keep sentinels, every animated field interpolates per a linear reference on a 41-point time grid (in every other shape each (position, field) is its own keyframe, so keyframes share positions) (delay, two cycles, after the end), metadata accessors return the configured values, and a stepped animation of the first animated field (40 holds = 80 keyframes with tied positions, end-of-hold keyframes added before start-of-hold ones) shows each hold's value inside the hold ({} run-time checks)", if thorough { "1..5 (6 types) and 6 (3 types)" } else { "1..4" }, compiled, checks)));
     cov.insert("exhaustive".into(), json!(true));
     cov.insert("compiled_runtime_checks".into(), json!(checks));
     cov.insert("samples".into(), json!(acc.samples));
